@@ -38,6 +38,9 @@ BAD_D = {
     363106: [103000, 31001, 12101],          # delayed span past the end
     363107: [101002, 363103],
     363108: [12101, 63999],                  # unknown element inside
+    363109: [101000, 12101, 7004],           # no factor, span otherwise closed
+    363110: [7004, 101000, 12101, 7004],
+    363111: [12101, 363109],
 }
 
 FACTOR_SETS = ["2 1 0 3", "0", "1", "3 0 2", "1 2"]
